@@ -26,7 +26,16 @@ func TestVerif(t *testing.T) {
 	if v, err := strconv.Atoi(os.Getenv("VERIF_TZ_OFFSET")); err == nil {
 		off = v
 	}
-	time.Local = time.FixedZone("verif", off*3600)
+	defaultZone := time.FixedZone("verif", off*3600)
+	time.Local = defaultZone
+	setZone := func(h *History) {
+		time.Local = defaultZone
+		if h.TZ != "" {
+			if loc, err := time.LoadLocation(h.TZ); err == nil {
+				time.Local = loc
+			}
+		}
+	}
 	out, err := os.Create(os.Getenv("VERIF_OUT"))
 	if err != nil {
 		t.Fatal(err)
@@ -35,6 +44,7 @@ func TestVerif(t *testing.T) {
 	w := bufio.NewWriterSize(out, 1<<20)
 	defer w.Flush()
 	runOne := func(h *History) {
+		setZone(h)
 		var lines []string
 		t.Run("h", func(t *testing.T) { lines = runHistory(t, h) })
 		for _, l := range lines {
